@@ -276,11 +276,15 @@ def c16_second_tier(scans, r, tier, seed, jobs):
                 out.append((name, rest, doc))
             continue
         n_added = 0
+        skeletons = {'sync': {}, 'async': {}}
         for key in keys:
             c = dsl.CONTRACTS[key]
             for p in sorted(c.props):
                 rr = driver.Run(p, tier, seed, jobs=jobs, only=['=' + key])
                 rr.generate()
+                for ckey, twin, variant, traces in rr.traces:
+                    if '__twin__' not in variant:
+                        skeletons[twin].setdefault((ckey, variant), set()).update(traces)
                 for o in rr.obligations:
                     o.name = 'C16/%s/shared-contract[%s]/%s' % (pair, p, o.name)
                     r.obligations.append(o)
@@ -291,7 +295,23 @@ def c16_second_tier(scans, r, tier, seed, jobs):
                 r.used_axioms.update(rr.used_axioms)
                 r.sf_axioms.update(rr.sf_axioms)
                 r.stats['paths'] += rr.stats['paths']
-        print('C16 note: %s -- %s; decided by the shared contract of the pair (%d obligations over both twins)' % (pair, differ[0], n_added))
+        # relational part: the two twins must have the same set of call skeletons (callees under contract in call order with their
+        # outcome kind, and how the path ends) -- an extra / missing / re-ordered call or a different exit on some path is a difference
+        # no shared contract can excuse
+        skel_problems = []
+        for kv in sorted(set(skeletons['sync']) | set(skeletons['async'])):
+            a, b = skeletons['sync'].get(kv), skeletons['async'].get(kv)
+            if a is None or b is None:
+                continue
+            for which, only in (('sync', a - b), ('async', b - a)):
+                for ev, end in sorted(only)[:3]:
+                    skel_problems.append('%s%s: only the %s twin has a path calling [%s] and ending in %s'
+                                         % (kv[0], kv[1] if kv[1] != '[]' else '', which, ', '.join('%s:%s' % e for e in ev), end))
+        print('C16 note: %s -- %s; decided by the shared contract of the pair (%d obligations over both twins) and by call-skeleton equality (%s)'
+              % (pair, differ[0], n_added, 'equal' if not skel_problems else '%d differences' % len(skel_problems)))
+        if skel_problems:
+            out.append(('C16/%s/twins-have-the-same-call-skeletons[sync]' % pair, skel_problems[:6],
+                        'same callees in the same order with the same outcome kinds and the same kind of exit on every path'))
         out.append((name.replace('twin-normal-forms-equal', 'twins-differ-textually;decided-by-shared-contract'), rest,
                     'normal forms differ; both twins are checked against the same contract instead'))
     return out
